@@ -385,6 +385,26 @@ def oracle_cert(case, res, rep):
                                 per_feature=[float(x) for x in d]))
 
 
+def oracle_stop_value(case, res, rep):
+    """C17: when a run stops on its tolerance the returned stopping value is (an upper bound of, and for unit
+    intercept scale equal to) the optimality violation of the returned point"""
+    out = res["out"]
+    if out is None:
+        return
+    w, obj_out, stop = out
+    tol = case.knobs.get("tol", 1e-4)
+    if not (stop <= tol) or case.knobs.get("ws_strategy", "subdiff") != "subdiff" or not np.all(np.isfinite(w)):
+        return
+    ww, bb = split(case, w)
+    v, d = ref.cert_subdiff(case.df, case.pen, case.wts, case.X, case.sw, case.y, ww, bb, case.fit_intercept)
+    slack = 1e-7 * (1 + float(np.max(np.abs(case.X))) * (1 + (float(np.max(np.abs(ww))) if len(ww) else 0)))
+    if not v <= stop * (1 + 1e-6) + slack:
+        rep.violate("the run stopped on its tolerance but the returned stopping value is smaller than the optimality "
+                    "violation of the returned point", dict(case.signature(site="AndersonCD.solve"), kind="stop-value"),
+                    case=case.describe(), impl_output=dict(stop_crit=float(stop), w=np.asarray(w).tolist()),
+                    oracle=dict(name="violation recomputed from X, y, w", violation=v))
+
+
 def oracle_history(case, res, rep):
     """C17: one entry per outer iteration performed, each the true objective of the iterate then;
     last entry = objective of the returned point"""
